@@ -212,7 +212,7 @@ class Renderer:
         if k == "s":
             return str(rv.wrap("s", w, key))
         if k == "enum":
-            return f"E{w}.k{key}"
+            return f"E{w}.m{w}k{key}"
         raise ValueError(argtype)
 
     def rx(self, t):
@@ -224,7 +224,7 @@ class Renderer:
         if tag == "lit":
             return f"({t[1]})" if t[1] < 0 else str(t[1])
         if tag == "ek":
-            return f"E{t[1]}.k{t[2]}"
+            return f"E{t[1]}.m{t[1]}k{t[2]}"
         if tag in BINSYM:
             return f"({r(t[1])} {BINSYM[tag]} {r(t[2])})"
         if tag in ("truncdiv", "rem"):
@@ -293,7 +293,7 @@ class Renderer:
         enums = sorted({p[2] for p in case["ports"] if p[1] == "enum"} | {ty[1] for ty in types.values() if ty[0] == "enum"}
                        | set(self._enum_consts(idxs)))
         for n in enums:
-            L += ["", f"class E{n}(enum.Enum):"] + [f"    k{i} = enum.auto()" for i in range(n)]
+            L += ["", f"class E{n}(enum.Enum):"] + [f"    m{n}k{i} = enum.auto()" for i in range(n)]
         L += ["", "", f"class {top}(Entity):", "    clk = Port.input(Bit)"]
         for sname, pt, _, _, _ in port_slots(case):
             L.append(f"    {sname} = Port.input({pt})")
@@ -310,8 +310,8 @@ class Renderer:
             elif p[1] == "enum":
                 n, w = p[2], enum_bits(p[2])
                 L.append(f"        e_{p[0]} = Signal[E{n}]()")
-                items = ", ".join('"' + format(i, f"0{w}b") + f'": E{n}.k{i}' for i in range(n))
-                drive.append(f"            e_{p[0]}.next = select_with(self.{p[0]}_c, {{{items}}}, default=E{n}.k0)")
+                items = ", ".join('"' + format(i, f"0{w}b") + f'": E{n}.m{n}k{i}' for i in range(n))
+                drive.append(f"            e_{p[0]}.next = select_with(self.{p[0]}_c, {{{items}}}, default=E{n}.m{n}k0)")
             elif p[1] == "Int":
                 L.append(f"        i_{p[0]} = Signal[int](1)")
                 drive.append(f"            i_{p[0]}.next = self.{p[0]}_i")
@@ -327,7 +327,7 @@ class Renderer:
                 ty = types[i]
                 if ty[0] == "enum":
                     n, w = ty[1], enum_bits(ty[1])
-                    items = ", ".join(f"E{n}.k{j}: " + '"' + format(j, f"0{w}b") + '"' for j in range(n))
+                    items = ", ".join(f"E{n}.m{n}k{j}: " + '"' + format(j, f"0{w}b") + '"' for j in range(n))
                     L.append(f"            self.{port}{i} <<= select_with({var}{i}, {{{items}}}, default=Null)")
                 else:
                     L.append(f"            self.{port}{i} <<= {var}{i}")
@@ -364,16 +364,6 @@ def _lits_for(w):
         if x not in out:
             out.append(x)
     return out
-
-
-class _Typer:
-    """static result type of an operator applied to operand *types* (through the model on zero values)."""
-
-    def __init__(self):
-        self.cache = {}
-
-    def ty(self, tree, ptypes):
-        return vx.static_type(tree, ptypes)
 
 
 def unary_forms(x, ty):
